@@ -143,6 +143,13 @@ def loop_driver(b, bb, stop_named=True):
     if best is None:
         return None
     h, blocks = best
+    return driver_of(b, h, blocks, bb, stop_named)
+
+
+def driver_of(b, h, blocks, bb=None, stop_named=True):
+    """(header, blocks, tree) for a given natural loop: the iterator whose next() drives it"""
+    if bb is None:
+        bb = h
     for c in b.calls():
         if c.bb in blocks and c.name() == "next" and c.args and (c.bb == h or b.dominates(c.bb, bb) or True):
             # the loop's own driver: the `next` whose block dominates every other block of the loop except the header chain
